@@ -1333,6 +1333,7 @@ package ring
 // ---- shared read pointer that earlier calls (on any level view) can have left ----
 //@ func ext:encoding/binary.bigEndian.Uint64
 //@   trusted decodes 8 bytes; panics on a shorter slice
+//@   assigns
 //@   requires len(b) >= 8
 
 //@ func Ring.Level
@@ -1355,15 +1356,20 @@ package ring
 
 //@ func ext:encoding/binary.bigEndian.Uint32
 //@   trusted decodes 4 bytes; panics on a shorter slice
+//@   assigns
 //@   requires len(b) >= 4
 
 // rejection sampling under a mask: the result is below the bound, whatever the generator returns
 //@ func randInt64
 //@   property C17
+//@   assigns
+//@   gassigns draws
 //@   ensures result <= mask
 
 //@ func randInt32
 //@   property C17
+//@   assigns
+//@   gassigns draws
 //@   ensures result <= mask
 
 //@ func RandUniform
@@ -1537,6 +1543,39 @@ package ring
 //@   loop 2 invariant 0 <= i && i <= N && len(randomBytes) == N
 //@   loop 3 invariant len(moduli) == rg.level+1 && forall(k, 0, rg.level+1, moduli[k] == rg.SubRings[k].Modulus)
 //@   loop 3 invariant 0 <= j && j <= rg.level+1 && index <= 2
+
+// ---- ternary sampling with a fixed Hamming weight (property C17): positions are drawn without
+// ---- replacement from an index table whose entries stay pairwise distinct and below N, so the hw
+// ---- non-zero values go to hw different coefficients and the closing loop clears exactly the others;
+// ---- every non-zero value is lut[k][coeff+1] (1 or q-1) for ONE sign bit per draw, the same on every
+// ---- RNS row, and that sign bit is bit (i & 7) of byte i>>3 of the block the generator delivered
+// ---- at the start of the call (draw i uses its own bit: signs are not correlated)
+//@ func TernarySampler.sampleSparse
+//@   property C17
+//@   let rg = ts.baseRing
+//@   let N = rg.SubRings[0].N
+//@   let n = rg.level + 1
+//@   let d0 = old(draws)
+//@   requires 0 <= rg.level && rg.level < len(rg.SubRings) && rg.level < len(pol.Coeffs) && rg.level < len(ts.matrixValues)
+//@   requires 8 <= N && N <= 1<<20 && 0 <= ts.hw
+//@   requires forall(j, 0, n, len(pol.Coeffs[j]) >= N && len(ts.matrixValues[j]) >= 3 && 0 < rg.SubRings[j].Modulus)
+//@   fnparam f#0 requires c == rg.SubRings[k].Modulus && coeff <= 1 && b == ts.matrixValues[k][coeff+1] && 0 <= idxj && idxj < N
+//@   fnparam f#0 requires coeff == (sampling.stream(d0 + (i >> 3)) >> (i & 7)) & 1
+//@   fnparam f#1 requires c == rg.SubRings[k].Modulus && b == 0
+//@   loop 0 invariant 0 <= i && i <= N && len(index) == N && fresh(index) && forall(a, 0, i, index[a] == a)
+//@   loop 1 invariant 0 <= i && i <= ts.hw && ts.hw <= N && len(index) == N - i && fresh(index) && modok(moduli, rg, n)
+//@   loop 1 invariant forall(a, 0, N - i, 0 <= index[a] && index[a] < N)
+//@   loop 1 invariant forall(a, 0, N - i, forall(b, 0, N - i, a == b || index[a] != index[b]))
+//@   loop 1 invariant pointer == i & 7 && len(randomBytes) == (ts.hw + 7) / 8 - (i >> 3) && forall(a, 0, len(randomBytes), randomBytes[a] == sampling.stream(d0 + (i >> 3) + a))
+//@   loop 2 invariant j <= mask && modok(moduli, rg, n) && len(index) == N - i && fresh(index) && forall(a, 0, N - i, 0 <= index[a] && index[a] < N)
+//@   loop 2 invariant forall(a, 0, N - i, forall(b, 0, N - i, a == b || index[a] != index[b]))
+//@   loop 2 invariant len(randomBytes) == (ts.hw + 7) / 8 - (i >> 3) && forall(a, 0, len(randomBytes), randomBytes[a] == sampling.stream(d0 + (i >> 3) + a))
+//@   loop 3 invariant 0 <= k && k <= n && modok(moduli, rg, n) && len(index) == N - i && fresh(index) && forall(a, 0, N - i, 0 <= index[a] && index[a] < N)
+//@   loop 3 invariant forall(a, 0, N - i, forall(b, 0, N - i, a == b || index[a] != index[b]))
+//@   loop 3 invariant coeff <= 1 && coeff == (sampling.stream(d0 + (i >> 3)) >> (i & 7)) & 1 && idxj == index[j] && j < N - i
+//@   loop 3 invariant len(randomBytes) == (ts.hw + 7) / 8 - (i >> 3) && forall(a, 0, len(randomBytes), randomBytes[a] == sampling.stream(d0 + (i >> 3) + a))
+//@   loop 4 invariant modok(moduli, rg, n) && forall(a, 0, len(index), 0 <= index[a] && index[a] < N)
+//@   loop 5 invariant 0 <= k && k <= n && modok(moduli, rg, n) && 0 <= i && i < N && forall(a, 0, len(index), 0 <= index[a] && index[a] < N)
 
 // ---- math/big as ASSUMED contracts (documented behaviour): each *big.Int / *big.Float is an object
 // ---- with one ghost value bigval(x); `refset` is the effect on it, evaluated on the values before the call
